@@ -265,5 +265,27 @@ def gen_atten(tier, rng):
             c = mk(xs, ts, check, st, ft, tp, mo, mp)
             c["unit_ns"] = unit
             cases.append(c)
+    # decimal sub-second steps (10 Hz, 5 Hz, 0.3 s): the step is not a binary fraction, so the code's float quotient
+    # min_period / step is only kept where true division followed by truncation gives the exact count (checked
+    # here in the same float arithmetic) - there the property fixes the count, and a different float recipe
+    # (floor division: 6 // 0.1 = 59) is a deviation
+    for _ in range(150 if tier == "quick" else 1500):
+        unit = rng.choice([NS // 10, NS // 10, NS // 5, 3 * NS // 10])
+        mp = rng.choice([1, 1, 2, 3])
+        need_obs = (mp * NS) // unit
+        if int(mp / (unit / 1e9)) != need_obs or (mp * NS) % unit != 0:
+            continue
+        n = rng.randint(need_obs - 1, need_obs + 4)
+        ts = list(range(n))
+        xs = [rng.choice([F(0), F(1), F(3), F(2), F(1), F(3)] + ([None] if rng.random() < 0.3 else [])) for _ in range(n)]
+        check = rng.choice(["std", "range"])
+        tp = mp + rng.choice([0, 0, 1])
+        c0 = mk(xs, ts, check, F(1), F(1, 2), tp, None, mp)
+        c0["unit_ns"] = unit
+        sp = spreads(xs, secs_of(c0), check, tp)
+        for st, ft in threshold_pairs(check, sp, rng, 1):
+            c = mk(xs, ts, check, st, ft, tp, None, mp)
+            c["unit_ns"] = unit
+            cases.append(c)
     cases += big_shift_copies(cases, "xs", rng, 150 if tier == "quick" else 1500, lambda c: c.get("check") == "range")
     return cases
